@@ -62,13 +62,23 @@ def new_constants(tree, ref_names):
     attr_stored = {n.attr for n in ast.walk(tree) if isinstance(n, ast.Attribute) and isinstance(n.ctx, (ast.Store, ast.Del))}
     attr_stored |= {c.args[1].value for c in ast.walk(tree) if isinstance(c, ast.Call) and isinstance(c.func, ast.Name) and c.func.id == "setattr"
                     and len(c.args) >= 2 and isinstance(c.args[1], ast.Constant) and isinstance(c.args[1].value, str)}
+    # a container that is written to (TABLE[k] = v, TABLE.add(x), ...) is state, not a constant
+    mutated = set()
+    for n in ast.walk(tree):
+        if isinstance(n, ast.Subscript) and isinstance(n.ctx, (ast.Store, ast.Del)) and isinstance(n.value, ast.Name):
+            mutated.add(n.value.id)
+        elif isinstance(n, ast.Call) and isinstance(n.func, ast.Attribute) and isinstance(n.func.value, ast.Name) and n.func.attr in (
+                "append", "extend", "insert", "remove", "pop", "clear", "sort", "reverse", "add", "discard", "update", "setdefault", "popitem"):
+            mutated.add(n.func.value.id)
+        elif isinstance(n, ast.AugAssign) and isinstance(n.target, ast.Name):
+            mutated.add(n.target.id)
     mod_consts, cls_consts = {}, {}
     known = {}
     for _ in range(3):
         for st in tree.body:
             if isinstance(st, ast.Assign) and len(st.targets) == 1 and isinstance(st.targets[0], ast.Name):
                 nm = st.targets[0].id
-                if counts.get(nm, 0) != 1:
+                if counts.get(nm, 0) != 1 or nm in mutated:
                     continue
                 try:
                     v = _literal(st.value, known)
@@ -85,7 +95,7 @@ def new_constants(tree, ref_names):
                             v = _literal(b.value, known)
                         except ValueError:
                             continue
-                        if nm in attr_stored:
+                        if nm in attr_stored or nm in mutated:
                             continue
                         if "%s.%s" % (st.name, nm) not in ref_names:
                             cls_consts[(st.name, nm)] = v
